@@ -9,26 +9,26 @@ import (
 	"github.com/tonistiigi/fsutil/zz_verif/v"
 )
 
-var xferLinkTargets = []string{"srv1/conf", "srv2", "/srv1", "f", "srv1/../f"}
-var xferRequests = []string{"srv*/conf", "srv1/conf", "L", "s*", "srv2/c*", "*/other", "L/conf", "f", "s*/c*"}
+var vh_xferLinkTargets = []string{"srv1/conf", "srv2", "/srv1", "f", "srv1/../f"}
+var vh_xferRequests = []string{"srv*/conf", "srv1/conf", "L", "s*", "srv2/c*", "*/other", "L/conf", "f", "s*/c*"}
 
 // starMatch: does a one-component pattern (only '*' is special) match the name?
-func starMatch(pat, name string) bool {
+func vh_starMatch(pat, name string) bool {
 	if pat == "" {
 		return name == ""
 	}
 	if pat[0] == '*' {
 		for i := 0; i <= len(name); i++ {
-			if starMatch(pat[1:], name[i:]) {
+			if vh_starMatch(pat[1:], name[i:]) {
 				return true
 			}
 		}
 		return false
 	}
-	return name != "" && pat[0] == name[0] && starMatch(pat[1:], name[1:])
+	return name != "" && pat[0] == name[0] && vh_starMatch(pat[1:], name[1:])
 }
 
-func hasStar(s string) bool {
+func vh_hasStar(s string) bool {
 	for i := 0; i < len(s); i++ {
 		if s[i] == '*' {
 			return true
@@ -39,20 +39,20 @@ func hasStar(s string) bool {
 
 // expandRequest: the concrete paths of the tree a request with wildcards stands for (component by
 // component against the entries of the tree; a request without wildcards stands for itself).
-func expandRequest(snap []m.Entry, req string) []string {
-	if !hasStar(req) {
+func vh_expandRequest(snap []m.Entry, req string) []string {
+	if !vh_hasStar(req) {
 		return []string{req}
 	}
-	pc := splitComps(req)
+	pc := vh_splitComps(req)
 	var out []string
 	for i := range snap {
-		ec := splitComps(snap[i].Path)
+		ec := vh_splitComps(snap[i].Path)
 		if len(ec) != len(pc) {
 			continue
 		}
 		ok := true
 		for j := range pc {
-			if !starMatch(pc[j], ec[j]) {
+			if !vh_starMatch(pc[j], ec[j]) {
 				ok = false
 			}
 		}
@@ -79,7 +79,7 @@ func VH_C18_transfer() {
 	m.MkFile(root+"/srv2/conf", []byte("c2"), 0644, 0, 0, 5)
 	m.MkFile(root+"/f", []byte("f"), 0644, 0, 0, 5)
 	m.MkFile(root+"/z", []byte("z"), 0644, 0, 0, 5)
-	m.MkSymlink(root+"/L", xferLinkTargets[v.Choose("target-L", len(xferLinkTargets))], 0, 0, 5)
+	m.MkSymlink(root+"/L", vh_xferLinkTargets[v.Choose("target-L", len(vh_xferLinkTargets))], 0, 0, 5)
 	if v.Bool("srv3-link") {
 		m.MkSymlink(root+"/srv3", "srv1", 0, 0, 5) // a directory symlink the wildcards also match
 	}
@@ -90,7 +90,7 @@ func VH_C18_transfer() {
 	}
 	reqs := make([]string, nreq)
 	for i := range reqs {
-		reqs[i] = xferRequests[v.Choose("req", len(xferRequests))]
+		reqs[i] = vh_xferRequests[v.Choose("req", len(vh_xferRequests))]
 	}
 	opt := &FilterOpt{FollowPaths: reqs}
 	if v.Bool("user-include") {
@@ -117,12 +117,12 @@ func VH_C18_transfer() {
 		}
 	}
 	for i := range sub {
-		par := specParent(sub[i].Path)
+		par := vh_specParent(sub[i].Path)
 		v.Assert(par == "" || reported[par], "the reported entries are parent closed")
 	}
 	for _, rq := range reqs {
-		for _, q := range expandRequest(snap, rq) {
-			links, final, exists, gaveUp := physResolve(snap, q)
+		for _, q := range vh_expandRequest(snap, rq) {
+			links, final, exists, gaveUp := vh_physResolve(snap, q)
 			if gaveUp || !exists || final == "" {
 				v.Cover("unresolvable")
 				continue
@@ -131,9 +131,9 @@ func VH_C18_transfer() {
 			// lexically, so what the target passes through is not part of the result
 			lexDots := false
 			for _, l := range links {
-				_, tgt, _ := snapKind(snap, l)
+				_, tgt, _ := vh_snapKind(snap, l)
 				past := false
-				for _, c := range splitComps(tgt) {
+				for _, c := range vh_splitComps(tgt) {
 					if c == ".." && past {
 						lexDots = true
 					}
@@ -143,17 +143,17 @@ func VH_C18_transfer() {
 				}
 			}
 			v.Cover("resolvable")
-			if hasStar(rq) {
+			if vh_hasStar(rq) {
 				v.Cover("wildcard")
 			}
-			_, final2, exists2, _ := physResolve(sub, q)
+			_, final2, exists2, _ := vh_physResolve(sub, q)
 			if lexDots {
 				v.Cover("lexical-dotdot")
 				v.Assert(exists2 && final2 == final, "in the transferred tree a requested path resolves to the same entry as in the source [class: link target with '..' after another component, cleaned lexically]")
 				continue
 			}
 			v.Assert(exists2 && final2 == final, "in the transferred tree a requested path resolves to the same entry as in the source")
-			kind, _, _ := snapKind(snap, final)
+			kind, _, _ := vh_snapKind(snap, final)
 			if kind == m.KFile {
 				rc, err := ffs.Open(final)
 				v.Assert(err == nil, "the file a requested path leads to can be opened through the view")
